@@ -158,7 +158,7 @@ theorem linkEvents_handled (s : St) : ∀ e ∈ linkEvents s, handled e.1 e.2 = 
     | cons c rest ih =>
       intro seen e he
       cases c with
-      | cellMod k cant =>
+      | cellMod k cant nent =>
         simp only [modifierEvents, List.mem_append] at he
         rcases he with he | he
         · split at he
@@ -542,7 +542,7 @@ theorem C13_link_errors (s : St) :
       | cons c rest ih =>
         intro seen e he
         cases c with
-        | cellMod k cant =>
+        | cellMod k cant nent =>
           simp only [modifierEvents, List.mem_append] at he
           rcases he with he | he
           · split at he
@@ -714,6 +714,59 @@ example : handled .parseInputInner (constructClass ⟨.ctor, .AttributeError⟩)
 example : (readInput .check [.input .mode (some ⟨.ctor, .TypeError⟩)]).final = .returned
     ∧ (readInput .normal [.input .mode (some ⟨.ctor, .TypeError⟩)]).final = .raised .TypeError (some .parseInputInner) := by
   decide
+
+/-! ## 3b. The pairing step of a material (nothing of the file is dropped silently) -/
+
+theorem pairUpStrict_spec {α : Type} : ∀ (n : Nat) (xs : List α), xs.length ≤ n →
+    (xs.length % 2 = 1 → pairUpStrict xs = .error .leftover)
+    ∧ (xs.length % 2 = 0 → ∃ ps, pairUpStrict xs = .ok ps ∧ ps.flatMap (fun p => [p.1, p.2]) = xs ∧ 2 * ps.length = xs.length) := by
+  intro n
+  induction n with
+  | zero =>
+    intro xs h
+    have : xs = [] := List.eq_nil_of_length_eq_zero (by omega)
+    subst this
+    exact ⟨by simp, fun _ => ⟨[], rfl, rfl, rfl⟩⟩
+  | succ n ih =>
+    intro xs h
+    match xs, h with
+    | [], _ => exact ⟨by simp, fun _ => ⟨[], rfl, rfl, rfl⟩⟩
+    | [a], _ => exact ⟨fun _ => rfl, by simp⟩
+    | a :: b :: rest, h =>
+      have hr : rest.length ≤ n := by simp at h; omega
+      obtain ⟨hodd, heven⟩ := ih rest hr
+      constructor
+      · intro ho
+        have : rest.length % 2 = 1 := by simp at ho; omega
+        simp [pairUpStrict, hodd this]
+      · intro he
+        have : rest.length % 2 = 0 := by simp at he; omega
+        obtain ⟨ps, hps, hflat, hlen⟩ := heven this
+        refine ⟨(a, b) :: ps, by simp [pairUpStrict, hps], by simp [hflat], by simp; omega⟩
+
+/-- **C13_pairing.** The pairing step of `Material.__init__` as the source has it now (`Gen.Errors.materialPairing`,
+    read off the AST): a list with an odd number of entries is REJECTED (a ValueError, which `parse_input` reports as
+    MalformedInputError: re-raised in normal mode, a warning in check mode), and a list with an even number of entries
+    loses nothing: the pairs, flattened, are the list.  With the truncating `zip(it, it)` idiom neither half is
+    provable (an odd list is accepted and its last entry dropped): a rewrite of the pairing expression re-opens this
+    theorem. -/
+theorem C13_pairing {α : Type} (xs : List α) :
+    (xs.length % 2 = 1 →
+      ∃ e, pairUp xs = .error e ∧ pairErrClass e = .MalformedInputError
+        ∧ handled .parseInputInner (pairErrClass e) = true)
+    ∧ (xs.length % 2 = 0 →
+      ∃ ps, pairUp xs = .ok ps ∧ ps.flatMap (fun p => [p.1, p.2]) = xs ∧ 2 * ps.length = xs.length) := by
+  obtain ⟨hodd, heven⟩ := pairUpStrict_spec xs.length xs (Nat.le_refl _)
+  constructor
+  · intro h
+    exact ⟨.leftover, by simp [pairUp, pairUpWith, materialPairing, hodd h], by decide, by decide⟩
+  · intro h
+    obtain ⟨ps, hps, hflat, hlen⟩ := heven h
+    exact ⟨ps, by simp [pairUp, pairUpWith, materialPairing, hps], hflat, hlen⟩
+
+/-- non-vacuity, and what the truncating idiom would do -/
+example : pairUp [1001, 6667, 8016] = .error .leftover ∧ pairUp [1001, 6667, 8016, 3333] = .ok [(1001, 6667), (8016, 3333)]
+    ∧ pairUpWith .zipTruncating [1001, 6667, 8016] = .ok [(1001, 6667)] := by decide
 
 /-! ## 4. The reader itself (reusing the reader model of C11/C20, `Model/Reader.lean`)
 
